@@ -6,8 +6,10 @@ import "verif/vlib"
 var Registry = map[string]func() *vlib.Plan{
 	"C01": C01Plan,
 	"C02": C02Plan,
+	"C03": C03Plan,
 	"C08": C08Plan,
 	"C09": C09Plan,
+	"C10": C10Plan,
 	"C12": C12Plan,
 	"C14": C14Plan,
 	"C15": C15Plan,
